@@ -69,6 +69,10 @@ def plan(tier, seed):
             cases.append(dict(key=f"axes/{fam}/{mat}", kind="axes", fam=fam, mat=mat, seed=seed, cost=25))
     for mat in MATS + ["NeoHooke@1e-09", "NeoHooke@1e-06", "NeoHooke@1000000.0", "neo_hooke-incompressible", "mooney_rivlin-incompressible", "yeoh-incompressible", "ogden-incompressible"]:
         cases.append(dict(key=f"view/{mat}", kind="view", mat=mat, seed=seed, cost=3))
+    # strongly compressible materials up to large stretches (the root finder for the free lateral stretches may need its restart)
+    for mat in ("NeoHooke:bulk=0.01", "NeoHooke:bulk=0.2", "NeoHookeCompressible:lmbda=0.1"):
+        for top in (3.0, 6.0, 10.0):
+            cases.append(dict(key=f"view-soft/{mat}/max-stretch={top}", kind="view-soft", mat=mat, top=top, seed=seed, cost=2))
     # history-dependent materials: every non-empty subset of the three load cases in one view, evaluated twice
     for mat in ("OgdenRoxburgh", "tt-ogden_roxburgh-incompressible", "tt-visco"):
         cases.append(dict(key=f"view-history/{mat}", kind="view-history", mat=mat, seed=seed, cost=6))
@@ -527,6 +531,45 @@ def run(case):
                     ref.append(dW(W, l, 0))
                 c.close(f"{path}", f"view curve '{label}' vs the closed form (transverse stress free)", force, np.array(ref), scale=(max(np.abs(ref).max(), 0.1) if "@" not in mat else np.abs(ref).max()))
         return c.result(dict(case=case["key"], stretches=lam.tolist()))
+    if kind == "view-soft":
+        from scipy.optimize import brentq
+
+        name, par = case["mat"].split(":")
+        val = float(par.split("=")[1])
+        if name == "NeoHooke":
+            um = fem.NeoHooke(mu=1.0, bulk=val)
+            W = lambda a, b, c_: 0.5 * ((a * b * c_) ** (-2 / 3) * (a * a + b * b + c_ * c_) - 3) + val / 2 * (a * b * c_ - 1) ** 2  # noqa
+        else:
+            um = fem.NeoHookeCompressible(mu=1.0, lmbda=val)
+            W = lambda a, b, c_: 0.5 * (a * a + b * b + c_ * c_) - np.log(a * b * c_) + val / 2 * np.log(a * b * c_) ** 2  # noqa
+        for num in (15, 60):
+            lam = np.linspace(1.0, case["top"], num)
+            data = um.view(ux=lam, ps=lam, bx=lam).evaluate()
+            c.trans += 3
+            for (st, force, label), path in zip(data, ("ux", "ps", "bx")):
+                force = np.asarray(force, float)
+                worst, wl = 0.0, None
+                for s_, f_ in zip(st, force):
+                    # ALL admissible free stretches (roots of the zero-stress condition on a wide bracket): the reported
+                    # force must belong to one of them (a soft material may have more than one)
+                    lam_of = {"ux": lambda t: [s_, t, t], "ps": lambda t: [s_, 1.0, t], "bx": lambda t: [s_, s_, t]}[path]
+                    g = lambda t: dW(W, lam_of(t), 2, h=1e-5 * t)  # noqa
+                    ts = np.geomspace(1e-3, 30.0, 400)
+                    gv = np.array([g(t) for t in ts])
+                    roots = [brentq(g, ts[i], ts[i + 1], xtol=1e-14, rtol=1e-13) for i in range(len(ts) - 1) if gv[i] * gv[i + 1] < 0]
+                    cands = [dW(W, lam_of(t), 0, h=1e-5) for t in roots]
+                    if not cands:
+                        c.notes.append(f"{path} stretch {s_}: no root found by the checker")
+                        continue
+                    e_ = min(abs(f_ - cd) for cd in cands) / max(max(abs(cd) for cd in cands), 0.1)
+                    if e_ > worst:
+                        worst, wl = e_, (float(s_), float(f_), [float(cd) for cd in cands])
+                c.traces += 1
+                if worst > 1e-5:
+                    c.bad(f"{path}/num={num}", f"view curve '{label}' of a strongly compressible material: force vs dW/dl1 at a free lateral stretch with zero transverse stress", dict(rel_err=worst, stretch=wl[0], got=wl[1], admissible=wl[2]), 0, 1e-5)
+                else:
+                    c.nontrivial.append(f"{path}/num={num}")
+        return c.result(dict(case=case["key"]))
     if kind == "view-history":
         import felupe.constitution as C
 
